@@ -247,9 +247,17 @@ func work(a lib.Args) {
 	if a.Replay != "" {
 		var cr concReplay
 		lib.ReadReplayCase(a.Replay, &cr)
+		if cr.Phase == "ramp" {
+			var rr rampReplay
+			lib.ReadReplayCase(a.Replay, &rr)
+			rampPhase(rr.N, a.Out, res)
+			acc.WriteShards(a.Out, "C11", nil, res.ShardSize)
+			res.Write(a.Out)
+			return
+		}
 		if cr.Phase == "concurrent" {
 			concurrentPhase(cr.AE, 2000, res)
-			lib.WriteShards(a.Out, acc.Header("C11"), "case", nil, res.ShardSize)
+			acc.WriteShards(a.Out, "C11", nil, res.ShardSize)
 			res.Write(a.Out)
 			return
 		}
@@ -395,6 +403,32 @@ func work(a lib.Args) {
 		}
 	}
 
+	if a.Replay == "" {
+		// (12) the JOSE header dimension x the signing-key dimension on every endpoint: kid / jku / x5c / jwk / crit /
+		// unknown members / duplicates in the header, signed with the relay secret (must succeed whatever the header
+		// says) or with the empty, a one-byte, a very long ... key (must be refused whatever the header says)
+		k := 0
+		kvs := acc.KeyVariants()
+		for _, hv := range acc.HeaderVariants() {
+			for ki, kv := range kvs {
+				rts := []string{routes[k%len(routes)]}
+				if hv.KidFam && kv.Label == "empty-key" {
+					rts = routes
+				} else if ki > 1 && (k+ki)%3 != 0 {
+					continue
+				}
+				for _, rt := range rts {
+					r := rng.Fork()
+					e := envs[r.Bool()]
+					now := int64(1600000000 + r.Intn(200000000))
+					x := baseFor(rt, e, now, n)
+					x.Auth = acc.WithHeaderKey(x.Auth, hv, kv, e.Secret)
+					add(e, now, x)
+				}
+				k++
+			}
+		}
+	}
 	if a.Replay == "" {
 		// (11) the request-path dimension, over the raw connection (a client library would clean these): every
 		// endpoint x non-canonical spellings (those the router resolves, and near misses) x {the right token, a token
@@ -570,6 +604,8 @@ func work(a lib.Args) {
 		acc.Progress(a.Out, map[string]string{"phase": "concurrent"})
 		concurrentPhase(false, a.Pick(2000, 8000), res)
 		concurrentPhase(true, a.Pick(700, 4000), res)
+		acc.Progress(a.Out, map[string]string{"phase": "ramp"})
+		rampPhase(a.Pick(20500, 72000), a.Out, res)
 	}
 	kept := coq[:0]
 	for _, t := range coq {
@@ -579,7 +615,7 @@ func work(a lib.Args) {
 	}
 	coq = kept
 	res.Evaluations = len(coq)
-	if _, err := lib.WriteShards(a.Out, acc.Header("C11"), "case", coq, res.ShardSize); err != nil {
+	if err := acc.WriteShards(a.Out, "C11", coq, res.ShardSize); err != nil {
 		fmt.Fprintln(os.Stderr, err)
 		os.Exit(2)
 	}
